@@ -168,6 +168,11 @@ func (c *DHashClient) FindAsync(ctx context.Context, mh multihash.Multihash, res
 			metadata, err := c.fetchMetadata(ctx, vk)
 			if err != nil {
 				log.Warnw("Error fetching metadata", "multihash", mh.B58String(), "evk", b58.Encode(evk), "err", err)
+				// A find whose context has ended is not complete: say so,
+				// instead of returning what was found so far as the answer.
+				if ctx.Err() != nil {
+					return ctx.Err()
+				}
 				continue
 			}
 			if len(metadata) == 0 {
@@ -199,6 +204,9 @@ func (c *DHashClient) FindAsync(ctx context.Context, mh multihash.Multihash, res
 			prs, err := c.pcache.GetResults(ctx, pid, ctxID, metadata)
 			if err != nil {
 				log.Warnw("Error fetching provider infos", "multihash", mh.B58String(), "evk", b58.Encode(evk), "err", err)
+				if ctx.Err() != nil {
+					return ctx.Err()
+				}
 				continue
 			}
 
